@@ -24,7 +24,7 @@ def generate(seed, tier):
     spec = gen_instance(rng, huge=0.03, sparse_ids=0.03, large=0.008, max_jobs=6 if big else 4, max_machines=5 if big else 4, max_ops=6 if big else 4)
     names, style = gen_filter(rng, None, p_none=0.5, user=0.15)
     faulty = rng.random() < 0.5
-    ops = gen_dispatch_ops(rng, n_ops(spec), p_fork=0.03 if rng.random() < 0.3 else 0.0, p_query=0.08, p_invalid=0.1 if faulty else 0.0,
+    ops = gen_dispatch_ops(rng, n_ops(spec), p_fork=0.03 if rng.random() < 0.3 else 0.0, p_solve_rest=0.03 if rng.random() < 0.4 else 0.0, p_query=0.08, p_invalid=0.1 if faulty else 0.0,
                            p_reset=0.05 if faulty else 0.0, episodes=2 if rng.random() < 0.2 else 1)
     return {"prop": PROP, "cfg": {"instance": spec, "filter": names, "filter_style": style,
                                   "observers": [{"t": "history"}], "gif_replay": rng.random() < 0.35}, "ops": ops}
